@@ -62,11 +62,18 @@ def parse_export(buf):
 def dump(name):
     if name in _DUMP:
         return _DUMP[name]
+    ents = dump_bytes(fixtures.load(name), name)
+    _DUMP[name] = ents
+    return ents
+
+
+def dump_bytes(data, name="gen"):
+    """what the independent reader (journalctl) finds in a journal file given as bytes"""
     d = os.path.join(core.scratch_root(), "journals")
     os.makedirs(d, exist_ok=True)
     p = os.path.join(d, "%s-%d.journal" % (name, os.getpid()))
     with open(p, "wb") as fh:
-        fh.write(fixtures.load(name))
+        fh.write(data)
     try:
         out = subprocess.run(["journalctl", "--file", p, "-o", "export", "--no-pager"], stdout=subprocess.PIPE,
                              stderr=subprocess.PIPE, check=True).stdout
@@ -79,8 +86,30 @@ def dump(name):
             d_.setdefault(k, []).append(v)
         ents.append({"fields": e, "rt": int(d_[b"__REALTIME_TIMESTAMP"][0]), "cursor": d_[b"__CURSOR"][0],
                      "message": d_.get(b"MESSAGE", [None])[0]})
-    _DUMP[name] = ents
     return ents
+
+
+def gen_journal(rng):
+    """a generated journal (sim/journalgen.py) + its entries as read back by journalctl, which must agree with the
+    generator entry by entry (receive time, stored fields): otherwise the harness, not s4, is at fault"""
+    import journalgen
+    n = rng.choice((0, 1, 2, 3, 5, 12, 40, 150))
+    pattern = rng.choice(("increasing", "increasing", "ties", "same", "subsecond"))
+    gents = journalgen.gen_entries(rng, n, pattern=pattern)
+    for k, e in enumerate(gents):
+        e.fields.append((b"_BOOT_ID", e.boot.hex().encode()))        # every real entry stores it
+        if rng.random() < 0.3:
+            # the sender's own clock: may differ from the receive time in either direction (s4 sorts and filters on the receive time)
+            e.fields.append((b"_SOURCE_REALTIME_TIMESTAMP", b"%d" % (e.rt + rng.choice((-5_000_000, -1, 0, 3, 2_000_000)))))
+    data = journalgen.build(gents, rng, seqnum_start=rng.choice((1, 1, 77000)), pad_to=rng.choice((None, None, 65536)))
+    ents = dump_bytes(data)
+    if len(ents) != len(gents):
+        raise RuntimeError("generated journal: journalctl reads %d entries, generator wrote %d" % (len(ents), len(gents)))
+    for (a, g) in zip(ents, gents):
+        stored = sorted(set((k_, v_) for (k_, v_) in a["fields"] if not k_.startswith(b"__")))
+        if a["rt"] != g.rt or stored != sorted(set(g.fields)):
+            raise RuntimeError("generated journal: journalctl reads entry %r differently from what the generator wrote" % (a["cursor"],))
+    return data, ents, "gen(n=%d,%s)" % (n, pattern)
 
 
 def select(ents, a_us, b_us):
@@ -141,8 +170,13 @@ def run_case(seed, i, tier):
         name = rng.choice(("u22x3", "u22x3", "ubuntu16", "ubuntu16", "ubuntu16", "rhe91", "opensuse15"))
     else:
         name = rng.choice(("u22x3", "ubuntu16", "ubuntu16", "rhe91", "opensuse15"))
-    ents = dump(name)
-    data = fixtures.load(name)
+    if rng.random() < 0.5:
+        data, ents, gdesc = gen_journal(rng)
+        name = "gen"
+    else:
+        ents = dump(name)
+        data = fixtures.load(name)
+        gdesc = None
     cont = rng.choice(("plain", "plain", "plain", "gz", "xz", "lz4", "tar", "bz2"))
     if cont == "bz2" and len(data) > 3_000_000:
         cont = "gz"
@@ -161,7 +195,7 @@ def run_case(seed, i, tier):
     form = rng.choice(("none", "both", "both", "only_a", "only_b", "a_eq_b"))
     idxs = list(range(len(ents)))
     if form != "none":
-        ts = sorted(set(e["rt"] * 1000 for e in ents))
+        ts = sorted(set(e["rt"] * 1000 for e in ents)) or [1_600_000_000_000_000_000]
         a = c03.place(rng, ts) if form != "only_b" else None
         b = c03.place(rng, ts) if form != "only_a" else None
         if form == "a_eq_b":
@@ -192,6 +226,10 @@ def run_case(seed, i, tier):
     cr.steps_max = tr.steps
     cr.policies[plan.policy.split(":")[0]] += 1
     cr.probes["journal_" + name] += 1
+    if gdesc:
+        cr.probes["generated_journal_" + gdesc.split(",")[1].rstrip(")")] += 1
+        if len(set(e["rt"] for e in ents)) < len(ents):
+            cr.probes["generated_journal_with_equal_receive_times"] += 1
     cr.probes["rendering_" + rendering] += 1
     cr.probes["container_" + cont] += 1
     cr.probes["window_" + form] += 1
@@ -208,16 +246,20 @@ def run_case(seed, i, tier):
             vs.append(("entries_differ", d))
     for (cls, detail) in vs:
         rp = {"scenario": scn.to_json() if len(stored) < 3_000_000 else None, "fixture": name, "container": cont, "opts": opts,
+              "gen_plain_b64": __import__("base64").b64encode(data).decode() if name == "gen" else None,
               "path": path, "plan": plan.as_replay(tr).to_json(), "class": cls, "rendering": rendering, "idxs": [idxs[0], idxs[-1]] if idxs else [],
               "n_idx": len(idxs), "tz": scn.tz}
         cr.violations.append(Violation(cls, "journal=%s container=%s rendering=%s window=%s a=%s b=%s tz-offset=%s: %s" % (
             name, cont, rendering, form, a, b, tzo, detail), rp))
-    cr.sample = {"argv": scn.argv, "journal": name, "entries_in_file": len(ents), "expected_selected": len(idxs)}
+    cr.sample = {"argv": scn.argv, "journal": gdesc or name, "entries_in_file": len(ents), "expected_selected": len(idxs)}
     return cr
 
 
 def classes_of(rp):
-    ents = dump(rp["fixture"])
+    if rp["fixture"] == "gen":
+        ents = dump_bytes(__import__("base64").b64decode(rp["gen_plain_b64"]))
+    else:
+        ents = dump(rp["fixture"])
     if rp.get("scenario"):
         scn = core.Scenario.from_json(rp["scenario"])
     else:
@@ -241,13 +283,15 @@ def replay(rp):
     return (rp.get("class") in cl) if rp.get("class") else bool(cl)
 
 
-RULE = ("one case = one shipped journal (Ubuntu22 user journal 3 entries, Ubuntu16 system 289, OpenSUSE15 1120, RHEL9.1 "
+RULE = ("one case = a generated journal (sim/journalgen.py: 0..150 entries; receive times increasing / tied / all equal / "
+        "sub-second apart; multi-line and binary field values; 1-2 boots; varied hash-table and entry-array shapes) or one "
+        "shipped journal (Ubuntu22 user journal 3 entries, Ubuntu16 system 289, OpenSUSE15 1120, RHEL9.1 "
         "2081) plain or in gz/bz2/xz/lz4/tar, one of the ten --journal-output renderings, a --tz-offset, and no window or a "
         "window with bounds exactly on / 1 us off / between receive times; compared with `journalctl --file -o export`; "
         "non-trivial = every run; distinct = (journal, container, rendering, window, zone)")
 ASSUMPTIONS = ["journalctl (systemd 252) is the reference reader for entry order, receive times and field contents",
                "where a file's receive times are not monotone around the drawn bounds the window is dropped (filter and seek+stop semantics differ and the statement names neither)",
-               "only the shipped journals are available as inputs"]
+               "generated journals use the regular (non-compact, Jenkins-hash, uncompressed) layout; a generated file is used only after journalctl reads back exactly the generator's entries"]
 
 
 def main(tier):
